@@ -180,12 +180,27 @@ func (f *faultDB) BeginTx() (mwdb.DBTransaction, error) {
 	if err := f.tick("begin"); err != nil {
 		return nil, err
 	}
-	tx, err := f.inner.BeginTx()
-	if err != nil {
-		return nil, err
+	// watchdog: a write transaction that was neither committed nor rolled back keeps the driver's
+	// writer lock for good; report that as an error instead of hanging the harness
+	type res struct {
+		tx  mwdb.DBTransaction
+		err error
 	}
-	f.writeTx++
-	return &faultTx{f: f, w: tx}, nil
+	ch := make(chan res, 1)
+	go func() {
+		tx, err := f.inner.BeginTx()
+		ch <- res{tx, err}
+	}()
+	select {
+	case r := <-ch:
+		if r.err != nil {
+			return nil, r.err
+		}
+		f.writeTx++
+		return &faultTx{f: f, w: r.tx}, nil
+	case <-time.After(20 * time.Second):
+		return nil, errors.New("writer lock not released (an earlier write transaction was never finished)")
+	}
 }
 
 func (f *faultDB) BeginReadTx() (mwdb.ReadTransaction, error) {
